@@ -110,6 +110,35 @@ def real(progs: Sequence[Dict[str, Any]], workers: int = 12, per_item_s: float =
     return pmap(_real_one, progs, workers=workers, per_item_s=per_item_s)
 
 
+def _real_rerender(args):
+    """One process, components installed ONCE, page template compiled ONCE, rendered with each page context in
+    turn (every compiled Template / NodeList / component class is re-used by the later renders): one
+    observation per context."""
+    prog, ctxs = args
+    from django.template import Context, Template
+    P.reset_library_state()
+    P.install(prog)
+    outs = []
+    try:
+        t = Template(P.page_src(prog))
+    except Exception as e:  # noqa: BLE001
+        return [{"err": type(e).__name__, "msg": str(e)[:300], "out": [], "junk": "", "ctx_changed": ""} for _ in ctxs]
+    for c in ctxs:
+        q = dict(prog, ctx=c)
+        try:
+            html = t.render(Context(P.page_context(q)))
+            toks, junk = P.tokens(html)
+            outs.append({"err": "", "out": toks, "junk": junk, "ctx_changed": ""})
+        except Exception as e:  # noqa: BLE001 - the class is the observation
+            outs.append({"err": type(e).__name__, "msg": str(e)[:300], "out": [], "junk": "", "ctx_changed": ""})
+        P.reset_library_state()
+    return outs
+
+
+def real_rerender(progs, ctxs, workers: int = 12, per_item_s: float = 20.0):
+    return pmap(_real_rerender, [(p, ctxs) for p in progs], workers=workers, per_item_s=per_item_s)
+
+
 def mismatch(exp: Dict[str, Any], obs: Dict[str, Any]) -> Optional[Dict[str, Any]]:
     """None if the real observation equals the specification's; else the first divergence."""
     if obs.get("hang"):
